@@ -94,6 +94,12 @@ class Run:
             self.info['terminate'] = [st, lib.safe_repr(v)]
         elif c['ending'] in ('sigkill', 'sigterm', 'kill-on-write'):
             s.gate_wait('fault', timeout=20.0)
+        elif c['ending'] == 'net-timeout':
+            # the TCP connections to the server time out (peer host lost, no FIN / RST)
+            s.sleep(c.get('net_delay', 0.05))
+            import errno
+            self.info['net-broken'] = lib.break_connections(w, getattr(errno, c.get('net_errno', 'ETIMEDOUT')))
+            s.tlog('net-fault')
         # observe death
         dead = False
         how = c['observe']
@@ -171,7 +177,7 @@ class Run:
         left = [e for e in truth if e['kind'] == 'run-left']
         raised = [e['exc'] for e in left if e['how'] == 'raise']
         returned = [e for e in left if e['how'] == 'return']
-        killed = bool(C.kills_seen(s))
+        killed = bool(C.kills_seen(s)) or any(e['kind'] == 'net-fault' for e in truth)
         landed = C.landed_exc_types(s)
         cause = C.cause(s, raised, returned)
         unreb_result = (c['fn'] == 't_return' and isinstance(c['kwargs'].get('v'), dict) and c['kwargs']['v'].get('$') == 'origin-only'
@@ -318,7 +324,15 @@ def plan(ctx):
                                 fault={'kind': fk, 'on_block': 'pipe-write-full' if 'process' in kind else 'send-full', 'occ': occ},
                                 policy={'kind': 'directed', 'p_stay': 0.5}, knobs={'pipe_cap': cap, 'tcp_cap': cap * 2}, tag='wblock')
                     wcases.append(c)
-    ctx.run(wcases, 'kill-while-blocked-writing')
+    for kind in ('remote', 'premote'):
+        for fl in [e[0] for e in targets_for(kind)][:6]:
+            for delay in (0.0, 0.02, 0.2):
+                for en in ('ETIMEDOUT', 'EHOSTUNREACH'):
+                    c = mk_case(ctx, kind, fl, 'net-timeout', rng.choice(['wait', 'poll', 'terminate']), len(wcases), policy={'kind': 'random', 'p_stay': 0.5}, tag='net')
+                    c['net_delay'] = delay
+                    c['net_errno'] = en
+                    wcases.append(c)
+    ctx.run(wcases, 'kill-while-blocked-writing+connection-timeouts')
     # phase 4: random schedules, random fault instants
     n = 1500 if quick else 30000
     rcases = []
@@ -330,7 +344,9 @@ def plan(ctx):
         if lib.base_kind(kind) == 'thread' and ending in ('sigkill', 'sigterm'):
             ending = 'terminate'
         fault = None
-        if ending != 'natural':
+        if lib.is_remote(kind) and rng.random() < 0.2:
+            ending = 'net-timeout'
+        if ending not in ('natural', 'net-timeout'):
             lst = points.get((kind, fl)) or []
             if lst:
                 tname, lpts, dpts = lst[0]
@@ -342,6 +358,9 @@ def plan(ctx):
                 ending = 'natural'
         c = mk_case(ctx, kind, fl, ending, rng.choice(['wait', 'terminate', 'poll']), i, fault=fault, policy=pol, knobs=knobs,
                     nreads=rng.choice([2, 3, 4]), tag='random')
+        if ending == 'net-timeout':
+            c['net_delay'] = rng.choice([0.0, 0.01, 0.05, 0.3])
+            c['net_errno'] = rng.choice(['ETIMEDOUT', 'ETIMEDOUT', 'EHOSTUNREACH'])
         rcases.append(c)
         if len(rcases) >= 2000:
             ctx.run(rcases, 'random')
